@@ -62,9 +62,10 @@ def rigidity_case(cid, rng, train_sizes, test_sizes, comp, alpha, with_witness=T
                 if not np.any(row[lo:lo + comp[c]]):
                     row[lo] = 1
     a = alpha[0] / alpha[1]
+    tiny = alpha[1] > 2 ** 30          # a small but valid regulariser (1e-11): recorded as 0 in fixed point, flagged positive
     trf = [t.astype(float) for t in train]
     tef = [t.astype(float) for t in test]
-    c = {"id": cid, "train": [t.tolist() for t in train], "test": [t.tolist() for t in test], "alpha": [int(alpha[0]), int(alpha[1])],
+    c = {"id": cid, "train": [t.tolist() for t in train], "test": [t.tolist() for t in test], "alpha": [0, 1] if tiny else [int(alpha[0]), int(alpha[1])], "apos": int(tiny),
          "comp": [int(v) for v in comp], "raised": False, "lpr_rq": [], "lpr_lq": [], "lcpr_rq": [], "lcpr_lq": [], "cpr_rq": [], "cpr_lq": [],
          "single_lq": [], "rescaled_lq": [], "grid_lq": [], "rank_diff": 0, "Ainv": []}
     try:
@@ -77,8 +78,8 @@ def rigidity_case(cid, rng, train_sizes, test_sizes, comp, alpha, with_witness=T
             cpr, lcpr, rd2 = componentwise_prediction_rigidity([t.copy() for t in trf], [t.copy() for t in tef], a, np.asarray(comp))
             single = componentwise_prediction_rigidity([t.copy() for t in trf], [t.copy() for t in tef], a, np.asarray([d]))[1]
             f = float(rng.choice([0.25, 3.0, 16.0, 1e-7, 1e-9, 1e6]))      # a common rescaling by many orders of magnitude as well
-            resc = local_prediction_rigidity([t * f for t in trf], [t * f for t in tef], a)[0]
-            grid = [local_prediction_rigidity([t.copy() for t in trf], [t.copy() for t in tef], g)[0] for g in (a / 64, a / 4, a, a * 8, a * 512)] if a > 0 else []
+            resc = local_prediction_rigidity([t * f for t in trf], [t * f for t in tef], a)[0] if not tiny else []
+            grid = [local_prediction_rigidity([t.copy() for t in trf], [t.copy() for t in tef], g)[0] for g in (a / 64, a / 4, a, a * 8, a * 512)] if a > 0 and not tiny else []
         c["lpr_rq"] = [[rq(v) for v in s_] for s_ in lpr]
         c["lpr_lq"] = [[lq(v) for v in s_] for s_ in lpr]
         c["lcpr_rq"] = [[[rq(v) for v in row] for row in s_] for s_ in lcpr]
@@ -104,7 +105,7 @@ def rigidity_case(cid, rng, train_sizes, test_sizes, comp, alpha, with_witness=T
     return c
 
 
-ALPHAS = [(1, 64), (1, 8), (1, 2), (1, 1), (4, 1), (32, 1), (1, 1000), (1, 1000000), (1000, 1), (0, 1)]
+ALPHAS = [(1, 64), (1, 8), (1, 2), (1, 1), (4, 1), (32, 1), (1, 1000), (1, 1000000), (1000, 1), (0, 1), (1, 10 ** 11)]
 
 
 def gen(args):
@@ -134,7 +135,7 @@ def gen(args):
     return out
 
 
-KEYS = ("id", "train", "test", "alpha", "comp", "raised", "lpr_rq", "lpr_lq", "lcpr_rq", "lcpr_lq", "cpr_rq", "cpr_lq", "single_lq", "rescaled_lq", "grid_lq", "rank_diff", "Ainv")
+KEYS = ("id", "train", "test", "alpha", "apos", "comp", "raised", "lpr_rq", "lpr_lq", "lcpr_rq", "lcpr_lq", "cpr_rq", "cpr_lq", "single_lq", "rescaled_lq", "grid_lq", "rank_diff", "Ainv")
 
 
 def strip(c):
